@@ -2,7 +2,10 @@
 from __future__ import annotations
 
 from .. import arrays as AR
-from ._arr import run_array_property, ASSUMPTIONS
+from .. import wherecases as WH
+from ..core import Finding
+from ..par import pmap
+from ._arr import run_array_property, ASSUMPTIONS, _locate
 
 LEVEL = "other"
 EXPLANATION = (
@@ -11,7 +14,9 @@ EXPLANATION = (
     "3 (quick) / 5 (thorough) dimensions, keys by letter and by name, tuple keys, and every ordered selection of 2-4 of 5 items: "
     "the NumPy index tuple the code assembles is evaluated by NumPy's documented indexing rule and the resulting axes and "
     "symbolic entries must be exactly the labelled region in the remaining dimensions' order and requested item order (lists "
-    "combined as an outer product); reads with lists, slices, unknown items, ambiguous items and non-subset Dimensions must raise.")
+    "combined as an outer product); reads with lists, slices, unknown items, ambiguous items and non-subset Dimensions must raise. "
+    "items_where is evaluated on the exact array domain for 1-3 (4) dimensional arrays in every memory layout (axis permutation of "
+    "the buffer) and six condition patterns; the reported rows must be the label tuples of exactly the entries meeting the condition.")
 TECHNIQUE = "static analysis: abstract interpretation of the index-assembly code over an index-kind domain, exhaustive over selector kind-vectors"
 
 
@@ -27,6 +32,34 @@ def family(prog, name, tier, taint_mode):
     raise KeyError(name)
 
 
+def _where_worker(prog, rep, job):
+    fails = {}
+    for j in job:
+        case = WH.case_items_where(prog, *j)
+        rep.evaluations += 1
+        for aspect, ok, msg, qual in case.verdicts:
+            rep.oblige("C06.items-where", ok, where=qual, what=str(case.inp), distinct=("C06.items-where", str(case.inp)))
+            if not ok:
+                c = fails.get(qual)
+                fails[qual] = (c[0] + 1, c[1], c[2]) if c else (1, case.inp, msg)
+    return fails
+
+
+def run_where(prog, rep):
+    rep.rule("C06.items-where", "items_where reports exactly the label tuples of the entries meeting the condition, for every memory layout of the values")
+    prog.method("FlodymArray", "items_where")
+    jobs = WH.where_jobs(rep.tier)
+    fails = {}
+    for part in pmap(_where_worker, [jobs[i::16] for i in range(16)], prog, rep):
+        for q, (n, inp, msg) in part.items():
+            c = fails.get(q)
+            fails[q] = (c[0] + n, c[1], c[2]) if c else (n, inp, msg)
+    for q, (n, inp, msg) in sorted(fails.items()):
+        module, line, sig = _locate(prog, q)
+        rep.add(Finding("C06", "C06.items-where", module, q, sig, f"{msg} [{n} configuration(s)]", line=line, abstract_input=inp))
+    rep.rules["C06.items-where"]["floor"] = 150
+
+
 def run(prog, rep):
     rep.rule("C06.read-region", "x[key] returns exactly the labelled entries, kept dimensions in order, requested item order")
     rep.rule("C06.write-region", "x[key] = v changes exactly the labelled entries")
@@ -38,6 +71,7 @@ def run(prog, rep):
     prog.cls("SubArrayHandler")
     prog.method("FlodymArray", "__getitem__")
     run_array_property(prog, rep, "C06", ["index", "orders", "misc", "patterns", "index@uniform", "misc@uniform"], aspects)
+    run_where(prog, rep)
     rep.rules["C06.read-region"]["floor"] = 85 if rep.tier == "quick" else 1365
     rep.rules["C06.write-region"]["floor"] = 85 if rep.tier == "quick" else 1365
     if rep.exhaustive is None:
@@ -48,6 +82,11 @@ def run(prog, rep):
 
 FA = "flodym_arrays.py"
 MUTANTS = [
+    {"name": "items_where-columns-by-reversed-letters", "path": FA, "find": "            for i, letter in enumerate(self.dims.letters)\n        ]\n        return np.array(items).transpose()",
+     "replace": "            for i, letter in enumerate(reversed(self.dims.letters))\n        ]\n        return np.array(items).transpose()"},
+    {"name": "items_where-flat-search-in-memory-order", "path": FA, "find": "        indices = np.argwhere(condition(self.values))\n",
+     "replace": "        mask = condition(self.values)\n        indices = np.array(np.unravel_index(np.flatnonzero(mask.ravel(order=\"K\")), mask.shape)).transpose()\n"},
+    {"name": "items_where-condition-negated", "path": FA, "find": "        indices = np.argwhere(condition(self.values))\n", "replace": "        indices = np.argwhere(~condition(self.values))\n"},
     {"name": "D5-mesh-guard-counts-lists-only", "path": FA,
      "find": "        requires_conversion = n_lists > 0 and n_lists + n_ints > 1\n",
      "replace": "        requires_conversion = n_lists > 1\n"},
